@@ -6,6 +6,8 @@ TECH = "machine-checked proof in Coq over an executable Gallina model + checked 
 CHECKS = {
  "C01": ("Theorems for every history, segment limit and reader start: every reachable log is well formed; Append returns exactly the next consecutive offsets and the log end advances by the batch size; each operation refines the abstract log (append adds at the end, truncate keeps exactly the records below the offset, reopen/HW change nothing); an uncommitted reader from any offset returns exactly the retained records >= start in order; content at an offset is immutable except for truncation. Tie: ~240 generated histories per run (appends with nil/empty/large fields, message-set appends, truncations, reopen, HW) on a real commitLog, every observation (offsets, log ends, all reads) compared with the model inside Coq, plus a direct oracle (abstract list of records).",
          "file system / mmap not modelled (segment = list of records); timestamps > 0, non-empty batches, MaxSegmentAge = 0, int32 index narrowing guarded; message codec round trip (key/value/headers bytes) is checked by the direct oracle on every read, its Coq theorem is not part of this cone yet", "DESIGN.md 5/C01"),
+ "C07": ("Theorems for every sequence of leader reports, ISR shrink/expand requests, timer expiries and controller leadership losses of the failover model: requests naming a stale leader or epoch are refused and change nothing; partition and leader epochs only increase, a leader change strictly increases the leader epoch (one leader per leader epoch) and any ISR/leader change strictly increases the partition epoch; a new leader is always an in-sync replica other than the reported leader, chosen only when more than (|ISR|-1)/2 in-sync followers that reported the current (leader, epoch) are on record, and the record is emptied by the election; leader in ISR subset of replicas is invariant under requests of the internal form. The pinned code is refuted (a single report by a non-replica re-elects). Tie: ~120 generated histories per run against a real single-node controller with a phantom-replica stream; return codes and leader/epochs/ISR compared with the model after every call; the run reports which model variant the tree matches; direct oracle for quorum, candidate, epochs, membership.",
+         "hashicorp/raft assumed (entries applied once, in index order); the expiry timer and the load-based choice among candidates are taken from the observation; ShrinkISR naming a non-replica makes the FSM apply fail, which panics the server by design -- excluded from generation and noted in DESIGN.md", "DESIGN.md 5/C07"),
  "C09": ("Theorems for every segment list, limit triple and cut-off: the cleaner returns a suffix of the segment list that always contains the newest segment; afterwards the message, byte and age limits hold unless only the newest segment remains (age: given non-decreasing last-write times); the newest removed segment always violates a configured limit together with the survivors (nothing is removed needlessly); the surviving content is a contiguous suffix and the cleaned log is well formed, so C01's reader theorem applies to it. Tie: ~250 histories per run with ~1300 Clean() calls on a real commitLog under all limit combinations (age cut-off pinned via computeTTL), layout before/after and all reads compared with the model inside Coq, plus a direct oracle for suffix / limits / minimality.",
          "time-based roll and the cleaner goroutine's own ticker are not modelled (Clean() is called directly); concurrent roll during a clean is the rebase path of C08", "DESIGN.md 5/C09"),
  "C12": ("Theorems for every sequence of joins (of non-members), leaves/expiries and stream deletions, any number of members/streams and any partition counts: every partition of every stream with a subscribed member has exactly one owner and the owner subscribes to the stream; nobody holds a partition of a stream it does not subscribe to or that does not exist; a single-stream rebalance leaves counts within one of each other; stale group epochs are refused. The model is a function of the op sequence. Tie: ~500 generated sequences per run on two directly constructed consumerGroup values, the full assignment table/members/epoch after every op compared with the model inside Coq, and the two instances with each other (Go map iteration is randomised) plus a direct exactly-one-owner oracle.",
